@@ -395,12 +395,52 @@ func ruleCovIdx(p *Prog, r *Report) {
 func ruleExtSan(p *Prog, r *Report) {
 	const rule = "R-COVIDX/resolved"
 	nFn, nCalls := 0, 0
+	// the interface value whose dynamic type was tested: receiver <- (extract of) typeassert <- load
+	origin := func(v ssa.Value) ssa.Value {
+		for i := 0; i < 6; i++ {
+			switch x := v.(type) {
+			case *ssa.Extract:
+				v = x.Tuple
+				continue
+			case *ssa.TypeAssert:
+				v = x.X
+				continue
+			case *ssa.UnOp:
+				if x.Op == token.MUL {
+					if al, ok := x.X.(*ssa.Alloc); ok {
+						// a spilled copy: follow the single store
+						if st := singleStore(al); st != nil {
+							v = st.Val
+							continue
+						}
+					}
+				}
+			case *ssa.MakeInterface:
+				v = x.X
+				continue
+			case *ssa.Alloc:
+				// the address of a spilled copy (pointer receiver)
+				if st := singleStore(x); st != nil {
+					v = st.Val
+					continue
+				}
+			}
+			break
+		}
+		return v
+	}
+	type fnCalls struct {
+		f                   *ssa.Function
+		resolves, sanitizes []*ssa.Call
+	}
+	var fns []fnCalls
+	// helpers of the loader which dispatch the sanitizers on one of their parameters: function -> parameter index
+	dispatchers := map[*ssa.Function]int{}
 	for _, f := range p.ModFns() {
 		if fnPkg(f) == nil || fnPkg(f).Path() != p.pkgPath("font") {
 			continue
 		}
-		var resolves []*ssa.Call
-		var sanitizes []*ssa.Call
+		fc := fnCalls{f: f}
 		for _, b := range f.Blocks {
 			for _, in := range b.Instrs {
 				c, ok := in.(*ssa.Call)
@@ -413,53 +453,66 @@ func ruleExtSan(p *Prog, r *Report) {
 				}
 				switch sc.Name() {
 				case "Resolve":
-					resolves = append(resolves, c)
+					fc.resolves = append(fc.resolves, c)
 				case "Sanitize":
-					sanitizes = append(sanitizes, c)
+					fc.sanitizes = append(fc.sanitizes, c)
 				}
 			}
 		}
-		if len(resolves) == 0 || len(sanitizes) == 0 {
+		if len(fc.resolves) == 0 && len(fc.sanitizes) != 0 {
+			for _, sc := range fc.sanitizes {
+				if par, ok := origin(sc.Common().Args[0]).(*ssa.Parameter); ok {
+					for i, q := range f.Params {
+						if q == par {
+							dispatchers[f] = i
+						}
+					}
+				}
+			}
+		}
+		fns = append(fns, fc)
+	}
+	for _, fc := range fns {
+		f := fc.f
+		if len(fc.resolves) == 0 {
+			continue
+		}
+		type site struct {
+			call *ssa.Call
+			v    ssa.Value
+			name string
+		}
+		var sites []site
+		for _, sc := range fc.sanitizes {
+			sites = append(sites, site{sc, sc.Common().Args[0], p.FnName(sc.Common().StaticCallee())})
+		}
+		for _, b := range f.Blocks {
+			for _, in := range b.Instrs {
+				if c, ok := in.(*ssa.Call); ok {
+					if d := c.Common().StaticCallee(); d != nil {
+						if i, ok := dispatchers[d]; ok && i < len(c.Common().Args) {
+							sites = append(sites, site{c, c.Common().Args[i], p.FnName(d)})
+						}
+					}
+				}
+			}
+		}
+		if len(sites) == 0 {
 			continue
 		}
 		nFn++
-		for _, sc := range sanitizes {
+		for _, st := range sites {
 			nCalls++
-			key := fmt.Sprintf("%s/%s", p.FnName(f), p.FnName(sc.Common().StaticCallee()))
+			key := fmt.Sprintf("%s/%s", p.FnName(f), st.name)
 			r.Instance(rule, key)
-			// the interface value whose dynamic type was tested: receiver <- (extract of) typeassert <- load
-			v := sc.Common().Args[0]
-			for i := 0; i < 6; i++ {
-				switch x := v.(type) {
-				case *ssa.Extract:
-					v = x.Tuple
-					continue
-				case *ssa.TypeAssert:
-					v = x.X
-					continue
-				case *ssa.UnOp:
-					if x.Op == token.MUL {
-						if al, ok := x.X.(*ssa.Alloc); ok {
-							// a spilled copy: follow the single store
-							if st := singleStore(al); st != nil {
-								v = st.Val
-								continue
-							}
-						}
-					}
-				case *ssa.MakeInterface:
-					v = x.X
-					continue
-				}
-				break
-			}
+			v := origin(st.v)
 			ld, isInstr := v.(ssa.Instruction)
 			ok := true
 			why := ""
 			if !isInstr {
 				ok, why = false, "the sanitized value is not read from the list of subtables"
 			} else {
-				for _, rc := range resolves {
+				for _, rc := range fc.resolves {
 					before := ld.Block() == rc.Block() && instrIndex(ld) < instrIndex(rc) || ld.Block() != rc.Block() && ld.Block().Dominates(rc.Block())
 					if before {
 						ok = false
@@ -467,11 +520,11 @@ func ruleExtSan(p *Prog, r *Report) {
 					}
 				}
 			}
-			r.Check(ok, rule, key, p.IPos(sc), "the sanitizer is dispatched on the subtable as it is after the resolution of extensions"+pref(why))
+			r.Check(ok, rule, key, p.IPos(st.call), "the sanitizer is dispatched on the subtable as it is after the resolution of extensions"+pref(why))
 		}
 	}
 	r.Floor(rule+"(functions)", nFn, 2)
-	r.Floor(rule, nCalls, 8)
+	r.Floor(rule, nCalls, 2)
 }
 
 func singleStore(al *ssa.Alloc) *ssa.Store {
